@@ -59,6 +59,26 @@ impl Inputs {
     }
 }
 
+// math/src/fft/mod.rs `permute` - the free function get_twiddles / get_inv_twiddles call: dispatches to FftInputs::permute
+// (the build without the `concurrent` feature: `cfg!(feature = "concurrent")` is false, stated as a literal rewrite)
+pub const MIN_CONCURRENT_SIZE: usize = /*@@expr source="math/src/fft/mod.rs" anchor="const MIN_CONCURRENT_SIZE: usize ="*/;
+//@@ source math/src/fft/mod.rs
+//@@ extract anchor="fn permute<E: FieldElement>(v: &mut [E])"
+//@@ rewrite "cfg!(feature = \"concurrent\")" => "false"
+//@@ rewrite "v.len()" => "v.v.len()"
+//@@ rewrite "FftInputs::permute(v);" => "v.permute();"
+pub fn permute_free(v: &mut Inputs)
+    requires
+        is_pow2(old(v).v.len() as int) || old(v).v.len() == 0,
+        forall|t: int| 0 <= t < old(v).v.len() ==> 0 <= #[trigger] pidx(old(v).v.len() as int, t) < old(v).v.len()
+            && pidx(old(v).v.len() as int, pidx(old(v).v.len() as int, t)) == t,
+    ensures
+        final(v).v.len() == old(v).v.len(),
+        forall|t: int| 0 <= t < old(v).v.len() ==> #[trigger] final(v).v@[t] == old(v).v@[pidx(old(v).v.len() as int, t)],
+{
+    /*@@body*/
+}
+
 proof fn fftv_canary_must_fail(n: int, t: int)
     requires is_pow2(n), 0 <= t < n
     ensures pidx(n, t) == t
